@@ -214,7 +214,9 @@ def r06_2_4(ctx, m, info):
     inc_in_inner = [st for st in walk_stmts(inner.body) if isinstance(st, ast.AugAssign) and norm(st.target) == bo]
     ctx.check(not inc_in_inner, "R06.2", dec.where(inner), "no BO increment inside the per-bubble loop", key_of(dec, "bo-inc-in-bubble-loop"))
     # the loop iterates the whole traversal, unfiltered
-    skip = [st for st in walk_stmts(loop.body) if isinstance(st, (ast.Continue, ast.Break)) and not any(x is st for x in ast.walk(inner))]
+    from ..core import own_loop_jumps
+
+    skip = own_loop_jumps(loop.body)
     ctx.check(not skip, "R06.2", dec.where(loop), "no chain element is skipped (no continue/break in the traversal loop)", key_of(dec, "traversal-skip"))
     for r in final:
         src = norm(r.value.elts[pos])
